@@ -87,7 +87,13 @@ type sender struct {
 }
 
 // injectFragmented delivers an IPv4 datagram as nfrag fragments in the given order.
-func (s sender) injectFragmented(x *host, dst4 [4]byte, dport uint16, payload []byte, ipid uint16, nfrag int, r *fw.Rand) {
+func (s sender) injectFragmented(x *host, dst4 [4]byte, dport uint16, payload []byte, ipid uint16, nfrag int, r *fw.Rand) [][]byte {
+	return s.fragments(x, dst4, dport, payload, ipid, nfrag, r, r)
+}
+
+// fragments cuts the datagram at cut points drawn from cr; with r == nil the fragments are
+// returned instead of injected.
+func (s sender) fragments(x *host, dst4 [4]byte, dport uint16, payload []byte, ipid uint16, nfrag int, cr, r *fw.Rand) [][]byte {
 	u := rfc.UDP{SrcPort: s.port, DstPort: dport, Payload: payload}
 	whole := u.Bytes4(s.addr4, dst4, true)
 	blocks := (len(whole) + 7) / 8
@@ -97,7 +103,7 @@ func (s sender) injectFragmented(x *host, dst4 [4]byte, dport uint16, payload []
 	// cut points in 8-byte blocks
 	cuts := map[int]bool{}
 	for len(cuts) < nfrag-1 {
-		cuts[1+r.Intn(blocks-1)] = true
+		cuts[1+cr.Intn(blocks-1)] = true
 	}
 	var pts []int
 	for b := 1; b < blocks; b++ {
@@ -116,9 +122,13 @@ func (s sender) injectFragmented(x *host, dst4 [4]byte, dport uint16, payload []
 		frags = append(frags, f.Bytes(true))
 		start = e
 	}
+	if r == nil {
+		return frags
+	}
 	for _, i := range r.Perm(len(frags)) {
 		x.h.L.Inject(ipv4.ProtocolNumber, frags[i], "")
 	}
+	return nil
 }
 
 func (s sender) inject(x *host, dst4 [4]byte, dst6 [16]byte, dport uint16, payload []byte, ipid uint16) {
@@ -303,6 +313,68 @@ func receiveScenario(k int) {
 			}
 		}
 		nfrag := 1
+		si2 := (si + 1 + r.Intn(ns)) % ns
+		if !s.v6 && ln >= 64 && ln <= 9000 && si2 != si && !senders[si2].v6 && r.Chance(1, 12) {
+			// two senders use the same IP identification at the same time and their fragments
+			// arrive interleaved: each datagram is reassembled from its own sender's fragments
+			s2 := senders[si2]
+			a2 := arrival{sender: si2, counter: uint32(i) | 1<<30, n: 64 + r.Intn(3000)}
+			match2 := dport == port
+			switch kind {
+			case "v4-specific":
+				match2 = match2 && dst4 == a4(wire.AddrA4)
+			case "connected":
+				match2 = match2 && si2 == 0 && dst4 == a4(wire.AddrA4)
+			}
+			if closedAt >= 0 && i >= closedAt {
+				match2 = false
+			}
+			a2.expect = match2
+			fa := s.fragments(x, dst4, dport, mkPayload(s.id, a.counter, ln), uint16(1000+i), 2+r.Intn(5), r, nil)
+			fb := s2.fragments(x, dst4, dport, mkPayload(s2.id, a2.counter, a2.n), uint16(1000+i), 2+r.Intn(5), r, nil)
+			shuffle := func(f [][]byte) {
+				out := make([][]byte, len(f))
+				for i, j := range r.Perm(len(f)) {
+					out[i] = f[j]
+				}
+				copy(f, out)
+			}
+			shuffle(fa)
+			shuffle(fb)
+			first, second, m1, m2 := a, a2, match, match2
+			ia, ib := 0, 0
+			for ia < len(fa) || ib < len(fb) {
+				if ib >= len(fb) || (ia < len(fa) && r.Bool()) {
+					x.h.L.Inject(ipv4.ProtocolNumber, fa[ia], "")
+					ia++
+					if ia == len(fa) && ib < len(fb) {
+						first, second, m1, m2 = a, a2, match, match2
+					}
+				} else {
+					x.h.L.Inject(ipv4.ProtocolNumber, fb[ib], "")
+					ib++
+					if ib == len(fb) && ia < len(fa) {
+						first, second, m1, m2 = a2, a, match2, match
+					}
+				}
+			}
+			rep = append(rep, fmt.Sprintf("arrivals %d/%d (len %d) and %d/%d (len %d): same IP id %d, fragments interleaved, completed in that order; match=%v/%v", first.sender, first.counter, first.n, second.sender, second.counter, second.n, 1000+i, m1, m2))
+			for _, y := range []struct {
+				a arrival
+				m bool
+			}{{first, m1}, {second, m2}} {
+				arrivals = append(arrivals, y.a)
+				if y.m {
+					expectQ = append(expectQ, y.a)
+				}
+				run.Count("datagrams_injected", 1)
+			}
+			run.Count("interleaved_same_id_fragment_pairs", 1)
+			if i%readEvery == readEvery-1 {
+				readSome(2 + r.Intn(4)) // two arrivals: a reader that keeps up takes both
+			}
+			continue
+		}
 		if !s.v6 && ln >= 64 && r.Chance(1, 4) {
 			nfrag = 2 + r.Intn(24)
 			s.injectFragmented(x, dst4, dport, mkPayload(s.id, a.counter, ln), uint16(1000+i), nfrag, r)
@@ -325,7 +397,7 @@ func receiveScenario(k int) {
 	}
 	// with no buffer pressure nothing may be lost
 	if !bad && readEvery == 1 && closedAt < 0 && len(expectQ) > 0 {
-		viol("read/lost", fmt.Sprintf("%d datagrams addressed to the socket were never returned although the reader kept up", len(expectQ)))
+		viol("read/lost", fmt.Sprintf("%d datagrams addressed to the socket were never returned although the reader kept up (first: sender %d counter %d, %d bytes)", len(expectQ), expectQ[0].sender, expectQ[0].counter, expectQ[0].n))
 	}
 	if _, _, e := ep.Read(nil); e == nil && !bad {
 		viol("read/extra", "Read returned a datagram after the queue was drained")
